@@ -92,6 +92,7 @@ def mSubDropR (o : Nat) : FMB :=
   ⟨[.reg o 5, .reg o 8, .subs, .subRemoved, .err o], [.subs, .subRemoved, .err o], fun s => subDrop o (s.reg o 5) s⟩
 def mSubPopR (o : Nat) : FMB := ⟨[.lastChk, .reg o 5], [.lastChk], fun s => subPop (s.reg o 5) s⟩
 def mLastChkR (o : Nat) : FMB := ⟨[.lastChk, .reg o 5], [.lastChk], fun s => lastChkSection (s.reg o 5) s⟩
+def mSubStoredR (o : Nat) : FMB := ⟨[.subs, .reg o 5], [.reg o 7], subStored o⟩
 -- thread-local steps
 def mGcPick (o : Nat) : FMB := ⟨[.rows o, .reg o 5], [.rows o, .reg o 4, .reg o 5], gcPick o⟩
 def mSubPick (o : Nat) : FMB := ⟨[.regS o, .reg o 5], [.regS o, .reg o 4, .reg o 5], subPick o⟩
@@ -148,6 +149,7 @@ theorem framed_mSubTestR (o : Nat) : (mSubTestR o).Framed := by unfold mSubTestR
 theorem framed_mSubDropR (o : Nat) : (mSubDropR o).Framed := by unfold mSubDropR; framed_tac [subDrop]
 theorem framed_mSubPopR (o : Nat) : (mSubPopR o).Framed := by unfold mSubPopR; framed_tac [subPop]
 theorem framed_mLastChkR (o : Nat) : (mLastChkR o).Framed := by unfold mLastChkR; framed_tac [lastChkSection]
+theorem framed_mSubStoredR (o : Nat) : (mSubStoredR o).Framed := by unfold mSubStoredR; framed_tac [subStored]
 theorem framed_mGcPick (o : Nat) : (mGcPick o).Framed := by unfold mGcPick; framed_tac [gcPick]
 theorem framed_mSubPick (o : Nat) : (mSubPick o).Framed := by unfold mSubPick; framed_tac [subPick]
 theorem framed_mRemovePick (o : Nat) : (mRemovePick o).Framed := by unfold mRemovePick; framed_tac [removePick]
@@ -180,8 +182,9 @@ def attendIterA (o : Nat) : List FI :=
   [.blk (mSubPick o)] ++ asect lkSvc [(mConsHasR o).guard o 4 1] ++
   [.blk (((mMarkRemove o).guard o 1 0).guard o 4 1)] ++
   asect lkDb [((mAll o).guard o 1 1).guard o 4 1] ++
-  asect lkSvc [(((mLastChkR o).guard o 6 1).guard o 1 1).guard o 4 1] ++
-  [.blk ((((mCallback o).guard o 6 1).guard o 1 1).guard o 4 1)]
+  asect lkSvc [(((mSubStoredR o).guard o 6 1).guard o 1 1).guard o 4 1] ++
+  asect lkSvc [((((mLastChkR o).guard o 7 1).guard o 6 1).guard o 1 1).guard o 4 1] ++
+  [.blk (((((mCallback o).guard o 7 1).guard o 6 1).guard o 1 1).guard o 4 1)]
 
 def respA (o : Nat) (ks : List Nat) (g : LSt → List Nat) : List FI := [.blk (mSetResp o ks g)]
 
@@ -341,7 +344,7 @@ macro "fuse_eval" : tactic => `(tactic| (
     List.cons_append, List.nil_append, List.append_nil, FI.erase, FMB.guard,
     mInsLd, mInsSt, mInsBump, mInsRet, mExists, mGet, mUpdate, mUpdIf, mRemoveId, mScan, mDelKey, mAll, mProvAdd, mProvDel,
     mProvHas, mConsAdd, mConsDel, mConsCollect, mConsHas, mConsHasR, mSubApp, mSubStamp, mSubsCopy, mSubTest, mSubDrop,
-    mSubPop, mSubTestR, mSubDropR, mSubPopR, mLastChkR, mGcPick, mSubPick, mRemovePick, mMarkRemove, mCallback,
+    mSubPop, mSubTestR, mSubDropR, mSubPopR, mLastChkR, mSubStoredR, mGcPick, mSubPick, mRemovePick, mMarkRemove, mCallback,
     mUnsubFind, mSetResp]
   simp only [fuse, fuseA_acq, fuseA_rel, fuseA_blk, startsBlk, fuseA_nil, lkDb, lkSvc, lkMt, List.isEmpty_cons, List.isEmpty_nil,
     Bool.not_false, Bool.not_true, Bool.and_true, Bool.true_and, Bool.false_and, Bool.and_false, if_true, if_false, List.erase_cons_head,
@@ -471,7 +474,7 @@ macro "lcheck_eval" ho:term : tactic => `(tactic| (
   simp [compileA, asect, gd, respA, gcIterA, subRemoveIterA, attendIterA, lcheck, endH, lallowedB, prot, startsBlkF, FMB.guard,
     mInsLd, mInsSt, mInsBump, mInsRet, mExists, mGet, mUpdate, mUpdIf, mRemoveId, mScan, mDelKey, mAll, mProvAdd, mProvDel,
     mProvHas, mConsAdd, mConsDel, mConsCollect, mConsHas, mConsHasR, mSubApp, mSubStamp, mSubsCopy, mSubTest, mSubDrop,
-    mSubPop, mSubTestR, mSubDropR, mSubPopR, mLastChkR, mGcPick, mSubPick, mRemovePick, mMarkRemove, mCallback,
+    mSubPop, mSubTestR, mSubDropR, mSubPopR, mLastChkR, mSubStoredR, mGcPick, mSubPick, mRemovePick, mMarkRemove, mCallback,
     mUnsubFind, mSetResp, lkDb, lkSvc, lkMt, $ho:term]))
 
 theorem replicate_all {α : Type} (n : Nat) (p : α) (P : α → Prop) (h : P p) : ∀ q ∈ List.replicate n p, P q := by
@@ -621,7 +624,7 @@ macro "framed_eval" : tactic => `(tactic| (
     framed_mRemoveId, framed_mScan, framed_mDelKey, framed_mAll, framed_mProvAdd, framed_mProvDel, framed_mProvHas,
     framed_mConsAdd, framed_mConsDel, framed_mConsCollect, framed_mConsHas, framed_mConsHasR, framed_mSubApp, framed_mSubStamp,
     framed_mSubsCopy, framed_mSubTest, framed_mSubDrop, framed_mSubPop, framed_mSubTestR, framed_mSubDropR, framed_mSubPopR,
-    framed_mLastChkR, framed_mGcPick, framed_mSubPick, framed_mRemovePick, framed_mMarkRemove, framed_mCallback,
+    framed_mLastChkR, framed_mSubStoredR, framed_mGcPick, framed_mSubPick, framed_mRemovePick, framed_mMarkRemove, framed_mCallback,
     framed_mUnsubFind]))
 
 theorem allFramedF_replicate (n : Nat) (p : List FI) (h : AllFramedF p) : AllFramedF (List.replicate n p).flatten :=
